@@ -138,6 +138,12 @@ Theorem C18_names_unique_one_graph : forall cf ins tr,
 Proof. exact names_unique_one_graph. Qed.
 Print Assumptions C18_names_unique_one_graph.
 
+Example C18_names_unique_one_graph_hypotheses_satisfiable :
+  straight ex_default_trace = true /\ forallb default_plain_call ex_default_trace = true /\
+  flat_map n_outs (snd (build_state bcfg_pinned ["x"] ex_default_trace)) =
+  ["v_enc.Split_0_0"; "v_enc.Split_0_1"; "v_enc.Split_0_2"; "v_enc.Split_1_0"; "v_enc.Split_1_1"; "v_Add_2"; "v_a.b.scaled_3"].
+Proof. exact ex_default_trace_ok. Qed.
+
 (* names_unique_across_subgraphs is false on the pinned tree: witness replayed on the real code *)
 Theorem C18_names_unique_across_subgraphs_refuted :
   let g := build bcfg_pinned ["x"; "c"] w_subgraph_trace [4] in
